@@ -83,7 +83,7 @@ RUNNER_RUN_TESTS = {
                'Exception': ["G.hookexc", STREAMS_SAME]},
     'props': {HANDOVER: ['C03', 'C01']},
     'callsites': {
-        'resume_tests': [HANDOVER],
+        'resume_tests': [HANDOVER, "_arg7 == self.cwd"],       # C03: children get the start directory (startdir_c03)
         'run_layer': [
             "not G.ntd",                                                                  # C01: nothing after a refused tearDown
             # C16: under --stop-on-error no further layer once a failure or an error has been recorded by this loop
